@@ -355,6 +355,15 @@ class PollModel(e1_history.Model):
                         bad.append(('V1-not-ready:' + name, '%s: %s for socket %d which is not ready for it' % (sub.pname, name, i)))
                     if which == 'second' and not hup:
                         obs2.add((name, i))
+            # a hung-up descriptor that has just been (re-)registered is ready for that role (EOF is readable, a write would fail
+            # at once): the poller must say something about it in the iterations right after the registration - a readiness
+            # event or _disconnect, both are documented - instead of staying silent
+            lastop, lasti = hist[-1]
+            if lastop in ('addReader', 'addWriter') and not g['gone'][lasti]:
+                sd = sub.sides[lasti]
+                if kernel(sd.s)[2] and not any(sock is sd.s for (_n, sock, _c) in it1 + it2):
+                    bad.append(('V2-hungup-silent:' + lastop, '%s: socket %d is hung up and was just registered with %s, but no event named it'
+                                % (sub.pname, lasti, lastop)))
             for i, sd in enumerate(sub.sides):
                 kr, kw, hup = kernel(sd.s)
                 if hup:
